@@ -117,6 +117,21 @@ type State struct {
 	Touched map[*smt.Term]int
 	// when set, modifies items are recorded instead of applied
 	ModCollect *modSet
+	// call-trace ghost: per callee key, how often it was called on this path (symbolic after a
+	// loop cut) and the arguments / results of the last call (gvcCalls / gvcCallArg / gvcCallRes)
+	Calls map[string]*callRec
+	// >0 while a callee's postcondition is evaluated: call-trace intrinsics are opaque there
+	TraceOpaque int
+	CallSeq     int
+	// json.NewEncoder results -> the writer they were created on (executor-side model of Encode)
+	EncW map[*smt.Term]Value
+}
+
+type callRec struct {
+	Seq  int // position of the last call in the path's trace (1-based; 0 = unknown after a loop cut)
+	N    *smt.Term
+	Args []Value
+	Res  []Value
 }
 
 func NewState() *State {
@@ -125,7 +140,7 @@ func NewState() *State {
 
 func (s *State) Clone() *State {
 	n := &State{Heap: make(map[string]*smt.Term, len(s.Heap)), Mem: make(map[string]*smt.Term, len(s.Mem)), Cells: make(map[*Cell]Value, len(s.Cells)),
-		OldDepth: s.OldDepth, Pre: s.Pre, PureDepth: s.PureDepth, ModCollect: s.ModCollect, Epoch: s.Epoch}
+		OldDepth: s.OldDepth, Pre: s.Pre, PureDepth: s.PureDepth, TraceOpaque: s.TraceOpaque, CallSeq: s.CallSeq, EncW: s.EncW, ModCollect: s.ModCollect, Epoch: s.Epoch}
 	n.Lits = make(map[*smt.Term]*smt.Term, len(s.Lits))
 	for k, v := range s.Lits {
 		n.Lits[k] = v
@@ -159,6 +174,12 @@ func (s *State) Clone() *State {
 	}
 	for k, v := range s.Cells {
 		n.Cells[k] = v
+	}
+	if s.Calls != nil {
+		n.Calls = make(map[string]*callRec, len(s.Calls))
+		for k, v := range s.Calls {
+			n.Calls[k] = v
+		}
 	}
 	n.PC = append([]*smt.Term(nil), s.PC...)
 	n.IsBranch = append([]bool(nil), s.IsBranch...)
